@@ -299,12 +299,15 @@ func (blEngine) Generate(p *sim.Plan, g *sim.Rng) {
 					case class < 35: // above the high threshold
 						pct = hi + blPickF(g, 0.5, 1, 3, 10, 25)
 					case class < 70: // below the low threshold
-						pct = lo * blPickF(g, 0.2, 0.5, 0.8, 0.95, 1)
+						pct = lo * blPickF(g, 0.2, 0.5, 0.8, 0.95, 0.99)
 					case class < 85: // between
 						pct = lo + (hi-lo)*blPickF(g, 0.3, 0.5, 0.9)
+						if hi == lo {
+							pct = lo + blPickF(g, -1, 1)
+						}
 					default: // at a boundary
 						pct = []float64{lo, hi}[g.Intn(2)]
-						edge = g.PickI64(-2, -1, 0, 0, 1, 1, 2)
+						edge = g.PickI64(-2, -1, -1, 0, 1, 1, 2, 3)
 					}
 				}
 			} else if pc != nil {
@@ -316,6 +319,11 @@ func (blEngine) Generate(p *sim.Plan, g *sim.Rng) {
 			tv := int64(pct * float64(capR) / 100)
 			if edge == 0 && class < 85 {
 				tv = tv / unit * unit
+				if pc != nil && !pc.Dev && class < 35 {
+					if hi, ok := pc.High[r]; ok && float64(tv) <= hi*float64(capR)/100 {
+						tv += unit // rounding must not pull an "above" node back onto the threshold
+					}
+				}
 			}
 			tv += edge
 			if tv < 0 {
@@ -362,7 +370,7 @@ func (blEngine) Generate(p *sim.Plan, g *sim.Rng) {
 				ops = append(ops, blOp{K: "sys", N: nodeName(), CPU: int64(g.Range(0, 80)) * blCPUUnit, Mem: int64(g.Range(0, 60)) * blMemUnit})
 			case x < 58:
 				ops = append(ops, blOp{K: "aim", N: nodeName(), Which: g.Pick("high", "high", "low", "low", "phigh", "plow", "room"),
-					Res: g.Pick(blCPU, blCPU, blMem), Off: g.PickI64(-2, -1, 0, 1, 1, 2, 3*blCPUUnit, -3*blCPUUnit, 10*blCPUUnit)})
+					Res: g.Pick(blCPU, blCPU, blMem), Off: g.PickI64(-2, -1, -1, 0, 1, 1, 2, 3*blCPUUnit, -3*blCPUUnit, 10*blCPUUnit, 1, blCPUUnit)})
 			case x < 64:
 				ops = append(ops, blOp{K: g.Pick("cordon", "uncordon"), N: nodeName()})
 			case x < 70:
@@ -384,7 +392,7 @@ func (blEngine) Generate(p *sim.Plan, g *sim.Rng) {
 			}
 		}
 		if g.Bool(0.8) {
-			ops = append(ops, blOp{K: "tick", D: g.PickI64(10, 30, 60, 60, 90, 120, 200, 400, 700, cfg.ExpS)})
+			ops = append(ops, blOp{K: "tick", D: g.PickI64(10, 30, 60, 60, 90, 120, 200, 400, 700, cfg.ExpS-1, cfg.ExpS+1, 45, 150, 20, cfg.ExpS)})
 		}
 		switch x := g.Intn(10); {
 		case x < 7:
@@ -392,12 +400,12 @@ func (blEngine) Generate(p *sim.Plan, g *sim.Rng) {
 		case x < 9:
 			for i := 0; i < nNodes; i++ {
 				if g.Bool(0.6) {
-					ops = append(ops, blOp{K: "report", N: fmt.Sprintf("n%d", i), D: g.PickI64(0, 0, 10, 60, cfg.ExpS, cfg.ExpS+30)})
+					ops = append(ops, blOp{K: "report", N: fmt.Sprintf("n%d", i), D: g.PickI64(0, 0, 0, 10, 50, cfg.ExpS-1, cfg.ExpS+30, cfg.ExpS-20)})
 				}
 			}
 		}
 		if g.Bool(0.3) {
-			ops = append(ops, blOp{K: "tick", D: g.PickI64(1, 10, 10, 30, cfg.ExpS)})
+			ops = append(ops, blOp{K: "tick", D: g.PickI64(1, 10, 10, 30, 9, 19, cfg.ExpS)})
 		}
 		ops = append(ops, blOp{K: "balance"})
 		if g.Bool(0.75) {
@@ -435,7 +443,7 @@ type blPod struct {
 	obj *corev1.Pod
 }
 
-func (p *blPod) key() string  { return p.NS + "/" + p.Name }
+func (p *blPod) key() string { return p.NS + "/" + p.Name }
 
 // isProd: koordinator's priority class of the pod. A pod that declares none (no label, no priority value) is Prod unless
 // it is a Kubernetes best-effort pod (documented default: plain LS pods are Prod, BE pods are Batch).
@@ -490,9 +498,12 @@ type blSim struct {
 	round     int
 
 	// per variant (0 node usage, 1 prod usage): consecutive rounds above the high threshold, per node
-	streak   [2]map[string]int
-	lastHi   [2]map[string]time.Time // last round in which the node was above (for the history class of the recorded finding)
-	afterInt [2]map[string]bool      // the current streak started after an interruption while the detector entry was still cached
+	streak               [2]map[string]int
+	lastHi               [2]map[string]time.Time // last round in which the node was above (for the history class of the recorded finding)
+	afterInt             [2]map[string]bool      // the current streak started after an interruption while the detector entry was still cached
+	lastPool             [2]map[string]*blPoolCfg
+	otherPool            [2]map[string]bool // the cached detector entry was created while the node belonged to a pool with another anomaly condition
+	gapBelow, afterBelow [2]map[string]bool // the interruption included a round in which the node was measured and not above
 }
 
 // ---- the two seams of LowNodeLoad: handle (pods per node, evictor) and the NodeMetric lister
@@ -976,6 +987,17 @@ func blKeys(m blThr) []string {
 }
 
 func blBoundOf(pct float64, capR int64) blBound {
+	// clamped percentages: 0 and 100 give exactly 0 and the capacity (0*x and 100*0.01*x are exact in floating point)
+	switch {
+	case pct < -1e-9:
+		return blBound{0, 0}
+	case pct > 100+1e-9:
+		return blBound{capR, capR}
+	case pct == 0:
+		return blBound{0, 0}
+	case pct == 100:
+		return blBound{capR, capR}
+	}
 	if pct > 100 {
 		pct = 100
 	}
@@ -1105,6 +1127,7 @@ func (s *blSim) buildTable(pc *blPoolCfg, now time.Time) *blTable {
 			}
 			if row.hi[v] == blMaybe || row.lo[v] == blMaybe {
 				t.exact = false
+				s.r.Probe(fmt.Sprintf("inexact:variant%d-hi%d-lo%d", v, row.hi[v], row.lo[v]))
 			}
 			t.est[v][name] = map[string]int64{blCPU: row.use[v][blCPU], blMem: row.use[v][blMem]}
 		}
@@ -1276,27 +1299,57 @@ func (s *blSim) updateStreaks(judge map[string]*blTable, now time.Time) {
 		t := judge[name]
 		for v := 0; v < 2; v++ {
 			above := false
-			if t != nil {
+			if t != nil && s.nodes[name].present {
 				if row := t.rows[name]; row != nil && row.valid && row.hi[v] != blNo {
 					above = true
+				} else if row != nil && row.why == "expiry-boundary" && s.streak[v][name] > 0 {
+					above = true // the statement does not say whether age == expiration is expired: do not break the streak
 				}
 			}
 			if !above {
 				s.streak[v][name] = 0
+				if t != nil && t.rows[name] != nil && t.rows[name].valid {
+					s.gapBelow[v][name] = true // measured and not above (as opposed to: not measured / not in the list)
+				}
 				continue
 			}
-			if s.streak[v][name] == 0 {
-				// a new streak: did an earlier one end while the node's detector entry was still cached?
-				last, had := s.lastHi[v][name]
-				s.afterInt[v][name] = had && now.Sub(last) <= ttl
-				if s.afterInt[v][name] && t.pool.Anom != nil && t.pool.Anom.N > 1 {
+			// history classes of the two recorded defects of the anomaly gate (known_findings.jsonl): the node's detector entry
+			// is still cached (last seen above less than DetectorCacheTimeout ago) and ...
+			last, had := s.lastHi[v][name]
+			if had && now.Sub(last) <= ttl {
+				if s.streak[v][name] == 0 {
+					s.afterInt[v][name] = true // ... the node was NOT above in some round since then
+					if s.gapBelow[v][name] {
+						s.afterBelow[v][name] = true
+					}
+				}
+				if lp := s.lastPool[v][name]; lp != nil && lp != t.pool && !blSameAnom(lp.Anom, t.pool.Anom) {
+					s.otherPool[v][name] = true // ... it was created under another pool's anomaly condition
+				}
+			} else {
+				s.afterInt[v][name], s.otherPool[v][name], s.afterBelow[v][name] = false, false, false
+			}
+			s.gapBelow[v][name] = false
+			if a := t.pool.Anom; a != nil && a.N > 1 {
+				if s.afterInt[v][name] {
 					s.r.Tag("interrupted-high-streak")
+				}
+				if s.otherPool[v][name] {
+					s.r.Tag("detector-from-other-pool")
 				}
 			}
 			s.streak[v][name]++
 			s.lastHi[v][name] = now
+			s.lastPool[v][name] = t.pool
 		}
 	}
+}
+
+func blSameAnom(a, b *blAnom) bool {
+	if a == nil || b == nil {
+		return a == b
+	}
+	return *a == *b
 }
 
 func (s *blSim) checkEvict(e *blEvict, judge map[string]*blTable, seen map[string]bool) {
@@ -1376,8 +1429,12 @@ func (s *blSim) checkEvict(e *blEvict, judge map[string]*blTable, seen map[strin
 	if a := t.pool.Anom; a != nil && a.N > 1 {
 		if got := s.streak[v][e.node]; got < int(a.N) {
 			detail := "fresh-streak"
-			if s.afterInt[v][e.node] {
-				detail = "after-interruption"
+			if s.otherPool[v][e.node] {
+				detail = "detector-of-other-pool"
+			} else if s.afterBelow[v][e.node] {
+				detail = "after-round-below-threshold"
+			} else if s.afterInt[v][e.node] {
+				detail = "after-unmeasured-round"
 			}
 			r.Fail("not-consecutive", detail, "Evict(%s) from node %s: %s usage has been above the high threshold for %d consecutive round(s) only, ConsecutiveAbnormalities=%d (round %d)",
 				e.key, e.node, vn, got, a.N, s.round)
@@ -1497,6 +1554,8 @@ func (blEngine) Execute(r *sim.Run) {
 	blEpoch = time.Now()
 	for v := 0; v < 2; v++ {
 		s.streak[v], s.lastHi[v], s.afterInt[v] = map[string]int{}, map[string]time.Time{}, map[string]bool{}
+		s.lastPool[v], s.otherPool[v] = map[string]*blPoolCfg{}, map[string]bool{}
+		s.gapBelow[v], s.afterBelow[v] = map[string]bool{}, map[string]bool{}
 	}
 	s.idx = cache.NewIndexer(cache.MetaNamespaceKeyFunc, cache.Indexers{})
 	for _, nc := range s.cfg.Nodes {
